@@ -116,7 +116,7 @@ func Main(args []string) {
 			} else if i%5 == 3 {
 				// the templates whose violation needs a particular interleaving get twice the share
 				c.Stream = "directed"
-				c.Prog = DirectedTemplate(cr, []int{2, 1, 6, 8, 0}[(i/5+int(o.Seed))%5])
+				c.Prog = DirectedTemplate(cr, []int{2, 1, 6, 8, 9}[(i/5+int(o.Seed))%5])
 			} else {
 				c.Prog = Gen(cr, GenOpts{MaxTasks: 7, MaxActs: 28})
 			}
